@@ -103,6 +103,8 @@ def run(tier, seed):
     return pipe.run_property("C09", tier, seed, ["noise", "adjust"], PROPS,
                              {"rule": "noise mode: for each of 130 (quick) / 530 (thorough) Hall settings an undistorted crystal, 2 (4) noisy twins "
                                       "(displacements <= 5% symprec + lattice strain) and a uniformly scaled twin (factor 1e-2..1e3, symprec scaled along); "
+                                      "for every third setting also a twin pair at symprec 1e-3/1e-2 with an explicit radian angle tolerance 6..12 x the change of the "
+                                      "inter-axial angle caused by one shear entry that uses the whole strain budget (tips move <= 5% symprec); "
                                       "a case is non-trivial when it is a distorted/scaled twin that returned a dataset; distinct = distinct input cells; "
                                       "adjust mode: 260 (1500) crystals with noise of 0.3..4 x symprec or oversized symprec, where the first attempt fails: the recorded "
                                       "ToleranceHandler updates (hook trace) must equal the Lean model's replay of the recorded errors and the returned symprec must be the last attempt's"},
